@@ -16,13 +16,15 @@ _RE_REJ = re.compile(r'<<"REJECTED", (\d+)>>')
 
 
 @contextmanager
-def recording(pest, sink: list):
+def recording(pest, sink: list, raw: bool = False):
     from pest.state import ParserState  # noqa: PLC0415
 
     os.environ["PEST_VERIF_TRACE"] = "1"
     vals: dict[str, int] = {}
 
     def view(st):
+        if raw:  # the strings themselves, as code point lists (comparison with PestVM's event log)
+            return {"pos": st.pos, "ustk": [[ord(c) for c in x] for x in st.user_stack], "rdepth": len(st.rule_stack), "adepth": int(st.atomic_depth)}
         return {"pos": st.pos, "ustk": [vals.setdefault(x, len(vals) + 1) for x in st.user_stack], "rdepth": len(st.rule_stack), "adepth": int(st.atomic_depth)}
 
     orig = {}
